@@ -294,4 +294,402 @@ theorem gretaFinal_eq_dpCount (q : Query) (hnd : (q.map (·.ty)).Nodup) (evs : L
   rw [h, List.getLast?_map]
   cases q.getLast? <;> simp
 
+namespace Hamlet
+
+/-! ### `hamlet_partial`: without an event of a start type the aggregator reports nothing -/
+
+/-- nothing has started: every query sits in its initial state with zero counters -/
+def Idle (a : Agg) : Prop :=
+  (∀ e ∈ a.states, e.2.cur = a.tpl.initialOf e.1 ∧ e.2.inTrend = false ∧ e.2.count = 0) ∧
+  (∀ f ∈ a.finals, f.2 = 0)
+
+/-- no transition on `ty` leaves the initial state of any query -/
+def NoStart (a : Agg) (ty : Ty) : Prop :=
+  ∀ e ∈ a.states, a.tpl.transition (a.tpl.initialOf e.1) ty = none
+
+theorem getState_mem (a : Agg) (q : Nat) (st : QState) (h : getState a q = some st) :
+    ∃ e ∈ a.states, e.1 = q ∧ e.2 = st := by
+  unfold getState at h
+  cases hf : a.states.find? (·.1 == q) with
+  | none => simp [hf] at h
+  | some e =>
+    simp [hf] at h
+    have := List.find?_some hf
+    exact ⟨e, List.mem_of_find?_eq_some hf, by simpa using this, h⟩
+
+theorem updateQueryState_idle (a : Agg) (q : Nat) (ty : Ty) (hi : Idle a) (hn : NoStart a ty) :
+    updateQueryState a q ty = (a, none) := by
+  unfold updateQueryState
+  cases hs : getState a q with
+  | none => rfl
+  | some st =>
+    obtain ⟨e, he, heq, hst⟩ := getState_mem a q st hs
+    have h1 := (hi.1 e he).1
+    have h2 := hn e he
+    rw [hst, heq] at h1
+    rw [heq] at h2
+    simp [h1, h2]
+
+theorem fold_update_idle (ty : Ty) : ∀ (regs : List (Nat × List Ty)) (a : Agg) (acc : List (Nat × Nat)),
+    Idle a → NoStart a ty →
+    regs.foldl (fun (acc : Agg × List (Nat × Nat)) r =>
+      let (a', rep) := updateQueryState acc.1 r.1 ty
+      (a', match rep with | some v => acc.2 ++ [(r.1, v)] | none => acc.2)) (a, acc) = (a, acc) := by
+  intro regs
+  induction regs with
+  | nil => intros; rfl
+  | cons r rs ih =>
+    intro a acc hi hn
+    simp only [List.foldl_cons, updateQueryState_idle a r.1 ty hi hn]
+    exact ih a acc hi hn
+
+theorem processNonShared_idle (size : Nat) : ∀ (queries : List Nat) (a : Agg), Idle a →
+    processNonShared a size queries = a := by
+  intro queries
+  unfold processNonShared
+  induction queries with
+  | nil => intros; rfl
+  | cons q qs ih =>
+    intro a hi
+    simp only [List.foldl_cons]
+    cases hs : getState a q with
+    | none => simpa using ih a hi
+    | some st =>
+      obtain ⟨e, he, _, hst⟩ := getState_mem a q st hs
+      have := (hi.1 e he).2.1
+      rw [hst] at this
+      simp only [this]
+      simpa using ih a hi
+
+theorem decisionShared_false (a : Agg) (ty : Ty) (h : a.regs.length < a.minQueries) :
+    decisionShared a ty = false := by
+  unfold decisionShared
+  have := List.length_filter_le (fun r : Nat × List Ty => r.2.contains ty) a.regs
+  simp only [Bool.and_eq_false_iff, decide_eq_false_iff_not]
+  right; omega
+
+theorem processClosed_idle (a : Agg) (ty : Ty) (size : Nat) (hi : Idle a) (h : a.regs.length < a.minQueries) :
+    processClosed a ty size = a := by
+  unfold processClosed
+  split
+  · rfl
+  · simp [decisionShared_false a ty h, processNonShared_idle size _ a hi]
+
+/-- the parts of the aggregator that `Idle`/`NoStart` and the reports depend on -/
+def SameCore (a b : Agg) : Prop :=
+  a.tpl = b.tpl ∧ a.regs = b.regs ∧ a.minQueries = b.minQueries ∧ a.states = b.states ∧ a.finals = b.finals
+
+theorem idle_of_same {a b : Agg} (h : SameCore a b) (hi : Idle a) : Idle b := by
+  obtain ⟨h1, _, _, h4, h5⟩ := h
+  unfold Idle at *
+  rw [← h1, ← h4, ← h5]; exact hi
+
+theorem noStart_of_same {a b : Agg} (ty : Ty) (h : SameCore a b) (hn : NoStart a ty) : NoStart b ty := by
+  obtain ⟨h1, _, _, h4, _⟩ := h
+  unfold NoStart at *
+  rw [← h1, ← h4]; exact hn
+
+theorem process_idle (a : Agg) (ty : Ty) (hi : Idle a) (hn : NoStart a ty) (h : a.regs.length < a.minQueries) :
+    ∃ a', process a ty = (a', []) ∧ SameCore a a' := by
+  unfold process
+  split
+  · exact ⟨a, rfl, rfl, rfl, rfl, rfl, rfl⟩
+  · -- the graphlet bookkeeping changes `lastTy`/`active` only
+    have hclosed : ∀ l, processClosed a l a.active = a := fun l => processClosed_idle a l a.active hi h
+    let a1 : Agg := match a.lastTy with
+      | some l => if l != ty then { processClosed a l a.active with active := 0 } else a
+      | none => a
+    have hs1 : SameCore a a1 := by
+      show SameCore a (match a.lastTy with
+        | some l => if l != ty then { processClosed a l a.active with active := 0 } else a
+        | none => a)
+      cases a.lastTy with
+      | none => exact ⟨rfl, rfl, rfl, rfl, rfl⟩
+      | some l =>
+        simp only
+        split
+        · rw [hclosed l]; exact ⟨rfl, rfl, rfl, rfl, rfl⟩
+        · exact ⟨rfl, rfl, rfl, rfl, rfl⟩
+    let a2 : Agg := { a1 with lastTy := some ty, active := a1.active + 1 }
+    have hs2 : SameCore a a2 := ⟨hs1.1, hs1.2.1, hs1.2.2.1, hs1.2.2.2.1, hs1.2.2.2.2⟩
+    refine ⟨a2, ?_, hs2⟩
+    have := fold_update_idle ty a2.regs a2 [] (idle_of_same hs2 hi) (noStart_of_same ty hs2 hn)
+    exact this
+
+theorem getFinal_idle (a : Agg) (q : Nat) (hi : Idle a) : getFinal a q = 0 := by
+  unfold getFinal
+  cases hf : a.finals.find? (·.1 == q) with
+  | none => simp
+  | some f => simpa using hi.2 f (List.mem_of_find?_eq_some hf)
+
+theorem getCount_idle (a : Agg) (q : Nat) (hi : Idle a) : ((getState a q).map (·.count)).getD 0 = 0 := by
+  cases hs : getState a q with
+  | none => simp
+  | some st =>
+    obtain ⟨e, he, _, hst⟩ := getState_mem a q st hs
+    have := (hi.1 e he).2.2
+    rw [hst] at this
+    simpa using this
+
+theorem fold_final_idle : ∀ (l : List (Nat × QState)) (a : Agg), (∀ e ∈ l, e.2.inTrend = false) →
+    l.foldl (fun a e => if e.2.inTrend && e.2.count > 0 then addFinal a e.1 e.2.count else a) a = a := by
+  intro l
+  induction l with
+  | nil => intros; rfl
+  | cons e es ih =>
+    intro a h
+    simp only [List.foldl_cons, h e (by simp), Bool.false_and]
+    exact ih a (fun e' he' => h e' (by simp [he']))
+
+theorem flush_idle (a : Agg) (hi : Idle a) (h : a.regs.length < a.minQueries) : flush a = [] := by
+  have key : List.filterMap (fun r : Nat × List Ty =>
+        let total := max (getFinal a r.1) (((getState a r.1).map (·.count)).getD 0)
+        if total > 0 then some (r.1, total) else none) a.regs = [] := by
+    simp [List.filterMap_eq_nil_iff, getFinal_idle a _ hi, getCount_idle a _ hi]
+  unfold flush
+  cases hl : a.lastTy with
+  | none =>
+    dsimp only
+    rw [fold_final_idle a.states a (fun e he => (hi.1 e he).2.1)]
+    exact key
+  | some l =>
+    dsimp only
+    rw [processClosed_idle a l a.active hi h, fold_final_idle a.states a (fun e he => (hi.1 e he).2.1)]
+    exact key
+
+/-- the whole run reports nothing -/
+theorem run_fold_idle : ∀ (l : List (Ty × Nat)) (a : Agg), Idle a → (∀ p ∈ l, NoStart a p.1) →
+    a.regs.length < a.minQueries →
+    ∃ a', l.foldl (fun (acc : Agg × List (Nat × Nat × Nat)) (p : Ty × Nat) =>
+        let (a', reps) := process acc.1 p.1
+        (a', acc.2 ++ reps.map fun (q, v) => (p.2, q, v))) (a, []) = (a', []) ∧ SameCore a a' := by
+  intro l
+  induction l with
+  | nil => intro a _ _ _; exact ⟨a, rfl, rfl, rfl, rfl, rfl, rfl⟩
+  | cons p ps ih =>
+    intro a hi hn h
+    obtain ⟨a1, hp, hs⟩ := process_idle a p.1 hi (hn p (by simp)) h
+    simp only [List.foldl_cons, hp, List.map_nil, List.append_nil]
+    have hn1 : ∀ p' ∈ ps, NoStart a1 p'.1 := fun p' hp' => noStart_of_same p'.1 hs (hn p' (by simp [hp']))
+    have hlen : a1.regs.length < a1.minQueries := by rw [← hs.2.1, ← hs.2.2.1]; exact h
+    obtain ⟨a2, h2, hs2⟩ := ih a1 (idle_of_same hs hi) hn1 hlen
+    exact ⟨a2, h2, hs.1.trans hs2.1, hs.2.1.trans hs2.2.1, hs.2.2.1.trans hs2.2.2.1,
+      hs.2.2.2.1.trans hs2.2.2.2.1, hs.2.2.2.2.trans hs2.2.2.2.2⟩
+
+theorem run_idle (qs : List Query) (m : Nat) (evs : List Ty)
+    (hi : Idle (Agg.new qs m)) (hn : ∀ t ∈ evs, NoStart (Agg.new qs m) t)
+    (h : (Agg.new qs m).regs.length < (Agg.new qs m).minQueries) :
+    run qs m evs = ([], []) := by
+  unfold run
+  have hn' : ∀ p ∈ evs.zipIdx, NoStart (Agg.new qs m) p.1 := by
+    intro p hp
+    exact hn p.1 (by
+      have := List.mem_map_of_mem (f := Prod.fst) hp
+      simpa using this)
+  obtain ⟨a', hf, hs⟩ := run_fold_idle evs.zipIdx (Agg.new qs m) hi hn' h
+  have hlen : a'.regs.length < a'.minQueries := by rw [← hs.2.1, ← hs.2.2.1]; exact h
+  have : (evs.zipIdx.foldl (fun (acc : Agg × List (Nat × Nat × Nat)) (x : Ty × Nat) =>
+      match x with
+      | (ty, k) =>
+        let (a', reps) := process acc.1 ty
+        (a', acc.2 ++ reps.map fun (q, v) => (k, q, v))) (Agg.new qs m, [])) = (a', []) := hf
+  simp only [this, flush_idle a' (idle_of_same hs hi) hlen]
+
+
+/-- query 0 starts in state 0, and only its first type leaves state 0 -/
+def TInv (t : Template) (ty0 : Ty) : Prop :=
+  t.initial = [(0, 0)] ∧ ∀ x ∈ t.trans, x.src = 0 → x.ty = ty0
+
+theorem tinv_registerType (t : Template) (ty0 ty : Ty) (h : TInv t ty0) : TInv (t.registerType ty) ty0 := by
+  unfold Template.registerType; split <;> exact h
+
+theorem tinv_addTransition (t : Template) (ty0 : Ty) (src dst : Nat) (ty : Ty) (h : TInv t ty0)
+    (hs : src = 0 → ty = ty0) : TInv (t.addTransition src dst ty) ty0 := by
+  unfold Template.addTransition
+  split
+  · exact h
+  · refine ⟨h.1, ?_⟩
+    intro x hx
+    simp only [List.mem_append, List.mem_singleton] at hx
+    rcases hx with hx | hx
+    · exact h.2 x hx
+    · subst hx; exact hs
+
+theorem tinv_addQuery (t : Template) (ty0 : Ty) (src : Nat) (ty : Ty) (q : Nat) (h : TInv t ty0) :
+    TInv (t.addQueryToTransition src ty q) ty0 := by
+  unfold Template.addQueryToTransition
+  refine ⟨h.1, ?_⟩
+  intro x hx
+  simp only [List.mem_map] at hx
+  obtain ⟨y, hy, rfl⟩ := hx
+  split <;> exact h.2 y hy
+
+theorem tinv_markKleene (t : Template) (ty0 : Ty) (src : Nat) (ty : Ty) (h : TInv t ty0) :
+    TInv (t.markKleene src ty) ty0 := by
+  unfold Template.markKleene
+  refine ⟨h.1, ?_⟩
+  intro x hx
+  simp only [List.mem_map] at hx
+  obtain ⟨y, hy, rfl⟩ := hx
+  split <;> exact h.2 y hy
+
+theorem tinv_addKleenePattern (t : Template) (ty0 ty : Ty) (st : Nat) (h : TInv t ty0) :
+    TInv (t.addKleenePattern ty st) ty0 := by
+  unfold Template.addKleenePattern; split <;> exact h
+
+theorem tinv_addKleene (t : Template) (ty0 : Ty) (q : Nat) (ty : Ty) (at_ : Nat) (h : TInv t ty0)
+    (hs : at_ = 0 → ty = ty0) : TInv (t.addKleene q ty at_) ty0 := by
+  unfold Template.addKleene
+  have h1 := tinv_addKleenePattern _ ty0 ty at_
+    (tinv_markKleene _ ty0 at_ ty (tinv_addQuery _ ty0 at_ ty q
+      (tinv_addTransition _ ty0 at_ at_ ty (tinv_registerType t ty0 ty h) hs)))
+  exact ⟨h1.1, h1.2⟩
+
+theorem zipIdx_snd_ge {α : Type} : ∀ (l : List α) (k : Nat), ∀ p ∈ l.zipIdx k, k ≤ p.2 := by
+  intro l
+  induction l with
+  | nil => intro k p hp; simp at hp
+  | cons x xs ih =>
+    intro k p hp
+    simp only [List.zipIdx_cons, List.mem_cons] at hp
+    rcases hp with rfl | hp
+    · exact Nat.le_refl _
+    · exact Nat.le_trans (Nat.le_succ k) (ih (k + 1) p hp)
+
+theorem tinv_seq_fold (q : Nat) (ty0 : Ty) : ∀ (l : List (Ty × Nat)) (t : Template), TInv t ty0 →
+    (∀ p ∈ l, p.2 = 0 → p.1 = ty0) →
+    TInv (l.foldl (fun t (x : Ty × Nat) => match x with
+      | (ty, i) => ((t.registerType ty).addTransition (0 + i) (0 + i + 1) ty).addQueryToTransition (0 + i) ty q) t) ty0 := by
+  intro l
+  induction l with
+  | nil => intro t h _; exact h
+  | cons p ps ih =>
+    intro t h hp
+    obtain ⟨ty, i⟩ := p
+    simp only [List.foldl_cons]
+    apply ih
+    · apply tinv_addQuery
+      apply tinv_addTransition
+      · exact tinv_registerType t ty0 ty h
+      · intro h0; exact hp (ty, i) (by simp) (by simpa using h0)
+    · intro p' hp'; exact hp p' (by simp [hp'])
+
+theorem tinv_kleene_fold (ty0 : Ty) : ∀ (l : List (Step × Nat)) (t : Template), TInv t ty0 →
+    (∀ p ∈ l, p.2 = 0 → p.1.ty = ty0) →
+    TInv (l.foldl (fun t (x : Step × Nat) => match x with
+      | (s, pos) => if s.kleene then t.addKleene 0 s.ty (0 + pos) else t) t) ty0 := by
+  intro l
+  induction l with
+  | nil => intro t h _; exact h
+  | cons p ps ih =>
+    intro t h hp
+    obtain ⟨s, pos⟩ := p
+    simp only [List.foldl_cons]
+    apply ih
+    · split
+      · apply tinv_addKleene _ _ _ _ _ h
+        intro h0; exact hp (s, pos) (by simp) (by simpa using h0)
+      · exact h
+    · intro p' hp'; exact hp p' (by simp [hp'])
+
+theorem tinv_build (s : Step) (ss : Query) : TInv (buildTemplate [s :: ss]) s.ty := by
+  have hb : buildTemplate [s :: ss] =
+      ((s :: ss).zipIdx).foldl (fun t (x : Step × Nat) => match x with
+        | (s, pos) => if s.kleene then t.addKleene 0 s.ty (0 + pos) else t)
+        (({} : Template).addSequence 0 (Query.types (s :: ss))) := rfl
+  have hs : ({} : Template).addSequence 0 (Query.types (s :: ss)) =
+      ((Query.types (s :: ss)).zipIdx).foldl (fun t (x : Ty × Nat) => match x with
+        | (ty, i) => ((t.registerType ty).addTransition (0 + i) (0 + i + 1) ty).addQueryToTransition (0 + i) ty 0)
+        { nstates := 0 + (Query.types (s :: ss)).length + 1, initial := [(0, 0)],
+          finals := [(0, 0 + (Query.types (s :: ss)).length)] } := rfl
+  rw [hb, hs]
+  apply tinv_kleene_fold
+  · apply tinv_seq_fold
+    · exact ⟨rfl, by simp⟩
+    · intro p hp h0
+      simp only [Query.types, List.map_cons, List.zipIdx_cons, List.mem_cons] at hp
+      rcases hp with rfl | hp
+      · rfl
+      · have := zipIdx_snd_ge _ _ p hp; omega
+  · intro p hp h0
+    simp only [List.zipIdx_cons, List.mem_cons] at hp
+    rcases hp with rfl | hp
+    · rfl
+    · have := zipIdx_snd_ge _ _ p hp; omega
+
+theorem transition_none (t : Template) (ty0 ty : Ty) (h : TInv t ty0) (hne : ty ≠ ty0) :
+    t.transition (t.initialOf 0) ty = none := by
+  have hi : t.initialOf 0 = 0 := by simp [Template.initialOf, h.1]
+  rw [hi]
+  unfold Template.transition
+  rw [List.find?_eq_none]
+  intro x hx
+  simp only [Bool.and_eq_true, beq_iff_eq, not_and]
+  intro h0 hty
+  exact hne (hty ▸ (h.2 x hx h0).symm ▸ rfl)
+
+
+/-- one query, sharing threshold ≥ 2, no event of the query's first type: no report at all -/
+theorem run_no_start (s : Step) (ss : Query) (m : Nat) (hm : 2 ≤ m) (evs : List Ty)
+    (h : ∀ t ∈ evs, t ≠ s.ty) : run [s :: ss] m evs = ([], []) := by
+  apply run_idle
+  · refine ⟨?_, ?_⟩
+    · intro e he
+      simp [Agg.new, List.range_succ] at he
+      subst he
+      exact ⟨rfl, rfl, rfl⟩
+    · intro f hf
+      simp [Agg.new, List.range_succ] at hf
+      subst hf; rfl
+  · intro t ht e he
+    simp [Agg.new, List.range_succ] at he
+    subst he
+    exact transition_none _ s.ty t (tinv_build s ss) (h t ht)
+  · simp [Agg.new]; omega
+
+end Hamlet
+
+theorem cnt_no_start (s : Step) (ss : Query) (hadj : AdjOK s ss) : ∀ (evs : List Ty), (∀ t ∈ evs, t ≠ s.ty) →
+    cnt (s :: ss) evs = 0 := by
+  intro evs
+  induction evs with
+  | nil => intro _; exact cnt_cons_nil s ss
+  | cons e es ih =>
+    intro h
+    rw [cnt_cons_cons s ss hadj, ih (fun t ht => h t (by simp [ht]))]
+    simp [h e (by simp)]
+
+
+theorem mem_of_mem_subseqs {α : Type} : ∀ (l u : List α), u ∈ subseqs l → ∀ x ∈ u, x ∈ l := by
+  intro l
+  induction l with
+  | nil => intro u hu x hx; simp [subseqs] at hu; subst hu; simp at hx
+  | cons a as ih =>
+    intro u hu x hx
+    simp only [subseqs, List.mem_append, List.mem_map] at hu
+    rcases hu with ⟨v, hv, rfl⟩ | hu
+    · simp only [List.mem_cons] at hx
+      rcases hx with rfl | hx
+      · simp
+      · exact List.mem_cons_of_mem _ (ih v hv x hx)
+    · exact List.mem_cons_of_mem _ (ih u hu x hx)
+
+/-- inside one window the time condition is vacuous -/
+theorem trendsW_inside (q : Query) (w : Nat) (evs : List (Ty × Nat))
+    (h : ∀ a ∈ evs, ∀ b ∈ evs, b.2 - a.2 ≤ w) :
+    trendsW q w evs = (subseqs evs).filter (fun u => matchSteps q (u.map (·.1))) := by
+  unfold trendsW
+  apply List.filter_congr
+  intro u hu
+  have hm := mem_of_mem_subseqs evs u hu
+  cases hh : u.head? with
+  | none => simp
+  | some a =>
+    cases hl : u.getLast? with
+    | none => simp
+    | some b =>
+      have ha : a ∈ evs := hm a (List.mem_of_mem_head? (by simp [hh]))
+      have hb : b ∈ evs := hm b (List.mem_of_mem_getLast? (by simp [hl]))
+      simp [h a ha b hb]
+
 end Varpulis.Trend
